@@ -346,7 +346,9 @@ fn eval_loc_expr(
                     }
                 }
             }
-            //collected.dedup();
+            // a node reached from several context nodes counts once (the list grew with every step otherwise)
+            let mut set = HashSet::new();
+            collected.retain(|v| set.insert(v.order()));
             nodes = collected;
         }
     }
